@@ -8,10 +8,19 @@
 //         (a = number of classes); mk: value (f,s) is missing iff mk != 0 and mix(seed,f,s,0xFFFF) % mk == 0
 //   stored values: sclass mix(seed,f,s,0) % classes; mclass hit j = mix(seed,f,s,j) % 2; signed/float mix(seed,f,s,j) % 41 - 20;
 //         unsigned mix(seed,f,s,j) % 41   (j = row-major component)
-//   gkind: 0..3 = identity sclass/mclass/scalar/struct, 4 = product(list), 5 = product(list1, list2), 6 = gradient(list);
+//   gkind: 0..3 = identity sclass/mclass/scalar/struct, 4 = product(list), 5 = product(list1, list2), 6 = gradient(list),
+//          7 = gradient(kernel3x3_type, list) written `7 <list> <kernel>` (0 sobel, 1 scharr, 2 prewitt);
+//          8 = a harness-defined computer through elemwise_generator_t, written `8 <list> <in> <out>`,
+//          9 = one through pairwise_generator_t, written `9 <list1> <list2> <in1> <in2> <out>`
+//              (in: 0 sclass, 1 mclass, 2 scalar, 3 struct = elemwise_input_*_t / pairwise_input_*_*_t; out = generated_type:
+//               0 sclass (3 labels), 1 mclass (2 labels), 2 scalar, 3 structured (3,1,1)); value functions: see `custom_*`;
 //          an empty list = the default constructor (all features)
 //   history ops: flatten L | iflatten B L | select F T L | iselect T L | tselect T L | targets L | itargets B L | feature F |
 //          c2f C | drop F | undrop | shuffle F | unshuffle | shuffled F L       (L = `n v1 .. vn`, T = -1 auto, 0..3 overload)
+//
+//   dataset grad3 <kernel> <mode> <input type> <rows> <cols> <rows*cols integer pixels>
+//          gradient3x3(mode, input, make_kernel3x3<double>(kernel), output) on one image (function level); input type
+//          0 int32, 1 double, 2 int8, 3 float, 4 uint8 (non-negative pixels only)
 //
 // The augmented line appends ` perms K {list}xK`: the permutation read back through dataset_t::shuffled(f, 0..N-1) right
 // after every `shuffle` op (empty when the op threw).
@@ -23,6 +32,7 @@
 #include <nano/dataset/iterator.h>
 #include <nano/generator/elemwise_gradient.h>
 #include <nano/generator/elemwise_identity.h>
+#include <nano/generator/pairwise.h>
 #include <nano/generator/pairwise_product.h>
 
 using namespace nano;
@@ -177,6 +187,231 @@ private:
     std::vector<fspec_t> m_specs;
     int64_t              m_target;
 };
+
+// ---- harness-defined computers for the two generator templates ----------------------------------------------------------
+// summary(value) = sum_j (j + 1) * value(j) over the row-major components (a label: the label itself), in int64_t
+template <class tvalue>
+int64_t summary(const tvalue& value)
+{
+    if constexpr (std::is_arithmetic_v<tvalue>)
+    {
+        return static_cast<int64_t>(value);
+    }
+    else
+    {
+        int64_t sum = 0;
+        for (tensor_size_t j = 0; j < value.size(); ++j)
+        {
+            sum += (j + 1) * static_cast<int64_t>(value(j));
+        }
+        return sum;
+    }
+}
+
+inline int32_t custom_label(int64_t t)
+{
+    return static_cast<int32_t>(((t % 3) + 3) % 3);
+}
+
+template <class tstorage>
+void custom_hits(int64_t t, tstorage&& storage)
+{
+    using tscalar = std::remove_reference_t<decltype(storage(0))>;
+    storage(0)    = static_cast<tscalar>(t % 2 == 0 ? 1 : 0);
+    storage(1)    = static_cast<tscalar>(t % 3 == 0 ? 1 : 0);
+}
+
+template <class tstorage>
+void custom_pow(int64_t s1, int64_t s2, tstorage&& storage)
+{
+    using tscalar = std::remove_reference_t<decltype(storage(0))>;
+    storage(0)    = static_cast<tscalar>(s1 * s1);
+    storage(1)    = static_cast<tscalar>(s1 * s2);
+    storage(2)    = static_cast<tscalar>(s2 * s2);
+}
+
+const char* custom_name(generator_type type)
+{
+    switch (type)
+    {
+    case generator_type::sclass: return "lab";
+    case generator_type::mclass: return "hit";
+    case generator_type::scalar: return "sum";
+    default: return "pow";
+    }
+}
+
+template <class tinput, class tgenerated>
+class elemwise_custom_t : public tinput, public tgenerated
+{
+public:
+    template <class... targs>
+    explicit elemwise_custom_t(targs&&... args)
+        : tinput("verif-elemwise", std::forward<targs>(args)...)
+    {
+    }
+
+    feature_t feature(const tensor_size_t ifeature) const override
+    {
+        const auto* const name = custom_name(tgenerated::generated_type);
+        if constexpr (tgenerated::generated_type == generator_type::sclass)
+        {
+            return this->make_sclass_feature(ifeature, name, strings_t{"r0", "r1", "r2"});
+        }
+        else if constexpr (tgenerated::generated_type == generator_type::mclass)
+        {
+            return this->make_mclass_feature(ifeature, name, strings_t{"even", "mod3"});
+        }
+        else if constexpr (tgenerated::generated_type == generator_type::scalar)
+        {
+            return this->make_scalar_feature(ifeature, name);
+        }
+        else
+        {
+            return this->make_struct_feature(ifeature, name, make_dims(3, 1, 1));
+        }
+    }
+
+    static auto process(const tensor_size_t)
+    {
+        if constexpr (tgenerated::generated_type == generator_type::sclass)
+        {
+            return std::make_tuple([](const auto& value) { return custom_label(summary(value)); }, tensor_size_t{2});
+        }
+        else if constexpr (tgenerated::generated_type == generator_type::mclass)
+        {
+            return std::make_tuple([](const auto& value, auto&& storage) { custom_hits(summary(value), storage); },
+                                   tensor_size_t{2});
+        }
+        else if constexpr (tgenerated::generated_type == generator_type::scalar)
+        {
+            return std::make_tuple([](const auto& value) { return static_cast<scalar_t>(summary(value)); }, tensor_size_t{1});
+        }
+        else
+        {
+            return std::make_tuple(
+                [](const auto& value, auto&& storage)
+                {
+                    const auto s = summary(value);
+                    custom_pow(s, s, storage);
+                },
+                tensor_size_t{3});
+        }
+    }
+};
+
+template <class tinput, class tgenerated>
+class pairwise_custom_t : public tinput, public tgenerated
+{
+public:
+    template <class... targs>
+    explicit pairwise_custom_t(targs&&... args)
+        : tinput("verif-pairwise", std::forward<targs>(args)...)
+    {
+    }
+
+    feature_t feature(const tensor_size_t ifeature) const override
+    {
+        const auto* const name = custom_name(tgenerated::generated_type);
+        if constexpr (tgenerated::generated_type == generator_type::sclass)
+        {
+            return this->make_sclass_feature(ifeature, name, strings_t{"r0", "r1", "r2"});
+        }
+        else if constexpr (tgenerated::generated_type == generator_type::mclass)
+        {
+            return this->make_mclass_feature(ifeature, name, strings_t{"even", "mod3"});
+        }
+        else if constexpr (tgenerated::generated_type == generator_type::scalar)
+        {
+            return this->make_scalar_feature(ifeature, name);
+        }
+        else
+        {
+            return this->make_struct_feature(ifeature, name, make_dims(3, 1, 1));
+        }
+    }
+
+    static auto process(const tensor_size_t)
+    {
+        if constexpr (tgenerated::generated_type == generator_type::sclass)
+        {
+            return std::make_tuple([](const auto& value1, const auto& value2)
+                                   { return custom_label(summary(value1) + 2 * summary(value2)); },
+                                   tensor_size_t{2});
+        }
+        else if constexpr (tgenerated::generated_type == generator_type::mclass)
+        {
+            return std::make_tuple([](const auto& value1, const auto& value2, auto&& storage)
+                                   { custom_hits(summary(value1) + 2 * summary(value2), storage); },
+                                   tensor_size_t{2});
+        }
+        else if constexpr (tgenerated::generated_type == generator_type::scalar)
+        {
+            return std::make_tuple([](const auto& value1, const auto& value2)
+                                   { return static_cast<scalar_t>(summary(value1) + 2 * summary(value2)); },
+                                   tensor_size_t{1});
+        }
+        else
+        {
+            return std::make_tuple([](const auto& value1, const auto& value2, auto&& storage)
+                                   { custom_pow(summary(value1), summary(value2), storage); },
+                                   tensor_size_t{3});
+        }
+    }
+};
+
+template <class tinput, class tgenerated>
+void add_elemwise(dataset_t& dataset, const indices_t& list)
+{
+    using tgenerator = elemwise_generator_t<elemwise_custom_t<tinput, tgenerated>>;
+    list.size() > 0 ? dataset.add<tgenerator>(list) : dataset.add<tgenerator>();
+}
+
+// the instantiated combinations (each one costs compile time: 10 resp. 10 x 10 storage-type dispatches per member):
+// element-wise: every input kind -> scalar, scalar -> every generated type, and kind -> same kind;
+// pair-wise: six input pairs -> scalar, (scalar, scalar) -> every generated type, (struct, struct) -> struct
+void add_elemwise(dataset_t& dataset, int64_t in, int64_t out, const indices_t& list)
+{
+    switch (in * 4 + out)
+    {
+    case 0: add_elemwise<elemwise_input_sclass_t, generated_sclass_t>(dataset, list); break;
+    case 2: add_elemwise<elemwise_input_sclass_t, generated_scalar_t>(dataset, list); break;
+    case 5: add_elemwise<elemwise_input_mclass_t, generated_mclass_t>(dataset, list); break;
+    case 6: add_elemwise<elemwise_input_mclass_t, generated_scalar_t>(dataset, list); break;
+    case 8: add_elemwise<elemwise_input_scalar_t, generated_sclass_t>(dataset, list); break;
+    case 9: add_elemwise<elemwise_input_scalar_t, generated_mclass_t>(dataset, list); break;
+    case 10: add_elemwise<elemwise_input_scalar_t, generated_scalar_t>(dataset, list); break;
+    case 11: add_elemwise<elemwise_input_scalar_t, generated_struct_t>(dataset, list); break;
+    case 14: add_elemwise<elemwise_input_struct_t, generated_scalar_t>(dataset, list); break;
+    case 15: add_elemwise<elemwise_input_struct_t, generated_struct_t>(dataset, list); break;
+    default: throw bad_op("element-wise combination not instantiated");
+    }
+}
+
+template <class tinput, class tgenerated>
+void add_pairwise(dataset_t& dataset, const indices_t& list1, const indices_t& list2)
+{
+    using tgenerator = pairwise_generator_t<pairwise_custom_t<tinput, tgenerated>>;
+    dataset.add<tgenerator>(list1, list2);
+}
+
+void add_pairwise(dataset_t& dataset, int64_t in1, int64_t in2, int64_t out, const indices_t& list1, const indices_t& list2)
+{
+    switch ((in1 * 4 + in2) * 4 + out)
+    {
+    case (0 * 4 + 0) * 4 + 2: add_pairwise<pairwise_input_sclass_sclass_t, generated_scalar_t>(dataset, list1, list2); break;
+    case (0 * 4 + 1) * 4 + 2: add_pairwise<pairwise_input_sclass_mclass_t, generated_scalar_t>(dataset, list1, list2); break;
+    case (1 * 4 + 2) * 4 + 2: add_pairwise<pairwise_input_mclass_scalar_t, generated_scalar_t>(dataset, list1, list2); break;
+    case (2 * 4 + 3) * 4 + 2: add_pairwise<pairwise_input_scalar_struct_t, generated_scalar_t>(dataset, list1, list2); break;
+    case (3 * 4 + 0) * 4 + 2: add_pairwise<pairwise_input_struct_sclass_t, generated_scalar_t>(dataset, list1, list2); break;
+    case (2 * 4 + 2) * 4 + 0: add_pairwise<pairwise_input_scalar_scalar_t, generated_sclass_t>(dataset, list1, list2); break;
+    case (2 * 4 + 2) * 4 + 1: add_pairwise<pairwise_input_scalar_scalar_t, generated_mclass_t>(dataset, list1, list2); break;
+    case (2 * 4 + 2) * 4 + 2: add_pairwise<pairwise_input_scalar_scalar_t, generated_scalar_t>(dataset, list1, list2); break;
+    case (2 * 4 + 2) * 4 + 3: add_pairwise<pairwise_input_scalar_scalar_t, generated_struct_t>(dataset, list1, list2); break;
+    case (3 * 4 + 3) * 4 + 3: add_pairwise<pairwise_input_struct_struct_t, generated_struct_t>(dataset, list1, list2); break;
+    default: throw bad_op("pair-wise combination not instantiated");
+    }
+}
 
 indices_t to_indices(const ivec& v)
 {
@@ -394,11 +629,71 @@ void itargets(out_t& out, const dataset_t& dataset, const indices_t& samples, in
         out << v;
     }
 }
+
+template <class tinput>
+void run_grad3(out_t& out, kernel3x3_type type, gradient3x3_mode mode, int64_t rows, int64_t cols, const ivec& pixels)
+{
+    tensor_mem_t<tinput, 2> input(rows, cols);
+    for (tensor_size_t i = 0; i < input.size(); ++i)
+    {
+        input(i) = static_cast<tinput>(pixels[static_cast<size_t>(i)]);
+    }
+    const auto                kernel = make_kernel3x3<scalar_t>(type);
+    tensor_mem_t<scalar_t, 2> output(rows - 2, cols - 2);
+    output.full(-12345.0);
+    const tensor_cmap_t<tinput, 2>  imap = map_tensor(static_cast<const tinput*>(input.data()), rows, cols);
+    const tensor_map_t<scalar_t, 2> omap = map_tensor(output.data(), rows - 2, cols - 2);
+    gradient3x3<tinput, scalar_t>(mode, imap, kernel, omap);
+    out << "ok"
+        << "K" << static_cast<double>(kernel[0]) << static_cast<double>(kernel[1]) << static_cast<double>(kernel[2]) << "O"
+        << (rows - 2) << (cols - 2) << output.size();
+    for (tensor_size_t i = 0; i < output.size(); ++i)
+    {
+        out << static_cast<double>(output(i));
+    }
+}
+
+std::string execute_grad3(toks_t& toks)
+{
+    const auto kernel = toks.i64();
+    const auto mode   = toks.i64();
+    const auto itype  = toks.i64();
+    const auto rows   = toks.i64();
+    const auto cols   = toks.i64();
+    const auto pixels = toks.ints();
+    if (kernel < 0 || kernel > 2 || mode < 0 || mode > 3 || rows < 3 || cols < 3 || rows > 64 || cols > 64 ||
+        static_cast<int64_t>(pixels.size()) != rows * cols || !toks.done())
+    {
+        throw bad_op("grad3");
+    }
+    const auto type  = static_cast<kernel3x3_type>(kernel);
+    const auto gmode = static_cast<gradient3x3_mode>(mode);
+    out_t      out;
+    switch (itype)
+    {
+    case 0: run_grad3<int32_t>(out, type, gmode, rows, cols, pixels); break;
+    case 1: run_grad3<double>(out, type, gmode, rows, cols, pixels); break;
+    case 2: run_grad3<int8_t>(out, type, gmode, rows, cols, pixels); break;
+    case 3: run_grad3<float>(out, type, gmode, rows, cols, pixels); break;
+    case 4: run_grad3<uint8_t>(out, type, gmode, rows, cols, pixels); break;
+    default: throw bad_op("grad3 input type");
+    }
+    return out.str();
+}
 } // namespace
 
 std::string vh::execute(toks_t& toks, std::string& aug)
 {
-    if (toks.s() != "dataset" || toks.s() != "hist")
+    if (toks.s() != "dataset")
+    {
+        throw bad_op("family");
+    }
+    const auto opname = toks.s();
+    if (opname == "grad3")
+    {
+        return execute_grad3(toks);
+    }
+    if (opname != "hist")
     {
         throw bad_op("family/op");
     }
@@ -455,6 +750,37 @@ std::string vh::execute(toks_t& toks, std::string& aug)
             break;
         }
         case 6: list.size() > 0 ? dataset.add<gradient_generator_t>(list) : dataset.add<gradient_generator_t>(); break;
+        case 7:
+        {
+            const auto ktype = toks.i64();
+            if (ktype < 0 || ktype > 2)
+            {
+                throw bad_op("kernel type");
+            }
+            const auto type = static_cast<kernel3x3_type>(ktype);
+            list.size() > 0 ? dataset.add<gradient_generator_t>(type, list) : dataset.add<gradient_generator_t>(type);
+            break;
+        }
+        case 8:
+        {
+            const auto in  = toks.i64();
+            const auto out = toks.i64();
+            add_elemwise(dataset, in, out, list);
+            break;
+        }
+        case 9:
+        {
+            const auto list2 = to_indices(toks.ints());
+            const auto in1   = toks.i64();
+            const auto in2   = toks.i64();
+            const auto out   = toks.i64();
+            if (in1 < 0 || in1 > 3 || in2 < 0 || in2 > 3)
+            {
+                throw bad_op("input kinds");
+            }
+            add_pairwise(dataset, in1, in2, out, list, list2);
+            break;
+        }
         default: throw bad_op("generator kind");
         }
     }
